@@ -42,6 +42,22 @@ theorem foldl_upd_fresh (g : PS → PS) (procs : List (Nat × Bool)) (pool : Nat
     apply ih
     intro q hq; exact hf q (by simp [hq])
 
+/-- the same for an update function that depends on the processor index -/
+theorem foldl_updI (g : Nat → PS → PS) (procs : List (Nat × Bool)) (pool : Nat → PS) (i : Nat)
+    (hf : ∀ p ∈ procs, p.2 = false) :
+    (procs.foldl (fun pl p => if p.2 then pl else upd pl p.1 (g p.1)) pool) i =
+      iter (g i) ((ids procs).count i) (pool i) := by
+  induction procs generalizing pool with
+  | nil => simp [ids, iter]
+  | cons p r ih =>
+    have hp := hf p (by simp)
+    simp only [List.foldl_cons, ids, List.map_cons, List.count_cons, hp]
+    rw [ih _ (fun q hq => hf q (by simp [hq]))]
+    by_cases h : p.1 = i
+    · subst h; simp [upd, ids, iter]
+    · have h' : ¬ i = p.1 := fun e => h e.symm
+      simp [upd, h, h', ids]
+
 theorem removeLast_none (i : Nat) (l : List (Nat × Bool)) (h : removeLast i l = none) : (ids l).count i = 0 := by
   induction l with
   | nil => simp [ids]
@@ -141,6 +157,22 @@ theorem iter_shutdown (k : Nat) (p : PS) :
 
 
 
+theorem iter_shutdownD (k x m : Nat) (p : PS) :
+    iter (procShutdownD k x) m p =
+      match p.kind with
+      | .recd => { p with cnt := { p.cnt with s := p.cnt.s + m } }
+      | .simpleRec => if p.stopped || m == 0 then p
+          else { p with stopped := true, cnt := { p.cnt with s := p.cnt.s + min k 1 } }
+      | .batchRec => if p.stopped || m == 0 then p
+          else { p with stopped := true, queued := p.queued - min x p.queued,
+                        cnt := { p.cnt with s := p.cnt.s + min k 1, n := p.cnt.n + min x p.queued } }
+      | .simpleNil | .batchNil => if m == 0 then p else { p with stopped := true } := by
+  induction m generalizing p with
+  | zero => obtain ⟨kind, ⟨a, e, f, s, n⟩, st, q⟩ := p; cases kind <;> simp [iter]
+  | succ m ih =>
+    obtain ⟨kind, ⟨a, e, f, s, n⟩, st, q⟩ := p
+    cases kind <;> cases st <;> simp [iter, ih, procShutdownD] <;> first | omega | (cases m <;> simp)
+
 /-- what the reference knows about component `i` (dead, deliv) determines the component's model state -/
 def CompInv (kd : PKind) (p : PS) (dead : Bool) (deliv : Nat) : Prop :=
   p.kind = kd ∧
@@ -224,6 +256,98 @@ theorem comp_step (kd : PKind) (p : PS) (dead : Bool) (deliv ks kf ka ke : Nat)
 
 
 
+/-! ### processors shut down by a provider Shutdown with a done context -/
+
+/-- a stock processor whose raced shutdown may still owe the exporter's Shutdown / the drain's exports -/
+def Raced (kd : PKind) (p : PS) (deliv : Nat) : Prop :=
+  p.kind = kd ∧ p.stopped = true ∧ p.cnt.f = 0 ∧ p.cnt.s ≤ 1 ∧
+  match kd with
+  | .simpleRec => p.cnt.n = deliv
+  | .batchRec => p.cnt.n + p.queued = deliv
+  | _ => False
+
+/-- component invariant with the reference's `raced` flag (only meaningful for the stock kinds with an exporter) -/
+def CompInvR (kd : PKind) (p : PS) (dead raced : Bool) (deliv : Nat) : Prop :=
+  match kd with
+  | .simpleRec | .batchRec => if raced then dead = true ∧ Raced kd p deliv else CompInv kd p dead deliv
+  | _ => CompInv kd p dead deliv
+
+/-- the per-index content of `Spec.TP.checkStep` with the raced cases (`rc` raced before, `rn` raced by this step) -/
+def StepOKR (kd : PKind) (prev cur : Cnt) (ka ke kf ks : Nat) (drains dead' : Bool) (deliv' : Nat)
+    (rc rn : Bool) : Prop :=
+  match kd with
+  | .recd => cur.a = prev.a + ka ∧ cur.e = prev.e + ke ∧ cur.n = 0 ∧ cur.s = prev.s + ks ∧ cur.f = prev.f + kf
+  | .simpleRec => cur.n = deliv' ∧ cur.f = 0 ∧
+      (if rc then cur.s = prev.s ∧ cur.s ≤ 1 else if rn then cur.s ≤ 1 else cur.s = (if dead' then 1 else 0))
+  | .batchRec =>
+      (if rc then cur.n = prev.n else if rn then prev.n ≤ cur.n else cur.n = (if drains then deliv' else prev.n)) ∧
+      cur.n ≤ deliv' ∧ cur.f = 0 ∧
+      (if rc then cur.s = prev.s ∧ cur.s ≤ 1 else if rn then cur.s ≤ 1 else cur.s = (if dead' then 1 else 0))
+  | _ => cur.n = 0 ∧ cur.s = 0 ∧ cur.f = 0
+
+theorem stepOK_to_R (kd : PKind) (prev cur : Cnt) (ka ke kf ks : Nat) (drains dead' : Bool) (deliv' : Nat)
+    (h : StepOK kd prev cur ka ke kf ks drains dead' deliv') :
+    StepOKR kd prev cur ka ke kf ks drains dead' deliv' false false := by
+  cases kd <;> simp_all [StepOK, StepOKR]
+  obtain ⟨t1, t2, _⟩ := h; rw [← t1]; exact t2
+
+/-- a raced-dead stock processor ignores every callback -/
+theorem raced_fix (kd : PKind) (p : PS) (deliv ks kf ka ke : Nat) (h : Raced kd p deliv) :
+    iter procOnEnd ke (iter procOnStart ka (iter procFlush kf (iter procShutdown ks p))) = p := by
+  obtain ⟨kind, ⟨a, e, f, s, n⟩, st, q⟩ := p
+  obtain ⟨hk, hst, _, _, h⟩ := h
+  simp only at hk hst; subst hk hst
+  cases kind <;> simp_all [iter_onEnd, iter_onStart, iter_flush, iter_shutdown]
+
+theorem raced_fixD (kd : PKind) (p : PS) (deliv k x m : Nat) (h : Raced kd p deliv) :
+    iter (procShutdownD k x) m p = p := by
+  obtain ⟨kind, ⟨a, e, f, s, n⟩, st, q⟩ := p
+  obtain ⟨hk, hst, _, _, h⟩ := h
+  simp only at hk hst; subst hk hst
+  cases kind <;> simp_all [iter_shutdownD]
+
+theorem raced_stepOK (kd : PKind) (p : PS) (deliv ka ke kf ks : Nat) (drains dead' rn : Bool) (h : Raced kd p deliv) :
+    StepOKR kd p.cnt p.cnt ka ke kf ks drains dead' deliv true rn := by
+  obtain ⟨kind, ⟨a, e, f, s, n⟩, st, q⟩ := p
+  obtain ⟨hk, hst, hf, hs, h⟩ := h
+  simp only at hk hst hf hs; subst hk hst
+  cases kind <;> simp_all [StepOKR] <;> omega
+
+/-- the provider's Shutdown with a done context, `m` = multiplicity of the component in the list -/
+theorem comp_raced (kd : PKind) (p : PS) (dead : Bool) (deliv k x m : Nat) (h : CompInv kd p dead deliv) :
+    CompInvR kd (iter (procShutdownD k x) m p) (dead || m != 0) (m != 0 && !dead) deliv ∧
+    StepOKR kd p.cnt (iter (procShutdownD k x) m p).cnt 0 0 0 m (m != 0) (dead || m != 0) deliv false
+      (m != 0 && !dead) := by
+  obtain ⟨kind, ⟨a, e, f, s, n⟩, st, q⟩ := p
+  obtain ⟨hk, h⟩ := h
+  simp only at hk; subst hk
+  rcases Nat.eq_zero_or_pos m with hm | hm
+  · subst hm
+    cases kind <;> cases dead <;> simp_all [iter_shutdownD, CompInvR, CompInv, StepOKR, Raced] <;> omega
+  · have hne : m ≠ 0 := by omega
+    cases kind <;> cases dead <;> cases st <;>
+      simp_all [iter_shutdownD, CompInvR, CompInv, StepOKR, Raced] <;> omega
+
+def isStock (kd : PKind) : Bool := kd == .simpleRec || kd == .batchRec
+
+theorem compInvR_elim (kd : PKind) (p : PS) (dead raced : Bool) (deliv : Nat)
+    (h : CompInvR kd p dead raced deliv) (hn : isStock kd = false ∨ raced = false) : CompInv kd p dead deliv := by
+  cases kd <;> cases raced <;> simp_all [CompInvR, isStock]
+
+theorem compInvR_intro (kd : PKind) (p : PS) (dead raced : Bool) (deliv : Nat)
+    (h : CompInv kd p dead deliv) (hn : isStock kd = false ∨ raced = false) : CompInvR kd p dead raced deliv := by
+  cases kd <;> cases raced <;> simp_all [CompInvR, isStock]
+
+theorem compInvR_raced (kd : PKind) (p : PS) (dead : Bool) (deliv : Nat) (hs : isStock kd = true) :
+    CompInvR kd p dead true deliv ↔ (dead = true ∧ Raced kd p deliv) := by
+  cases kd <;> simp_all [CompInvR, isStock]
+
+theorem stepOKR_irrel (kd : PKind) (prev cur : Cnt) (ka ke kf ks : Nat) (drains dead' : Bool) (deliv' : Nat)
+    (rc rn : Bool) (hs : isStock kd = false)
+    (h : StepOKR kd prev cur ka ke kf ks drains dead' deliv' false false) :
+    StepOKR kd prev cur ka ke kf ks drains dead' deliv' rc rn := by
+  cases kd <;> simp_all [StepOKR, isStock]
+
 open Otel.C15.Spec.TP in
 structure Inv (kinds : List PKind) (s : St) (r : Spec.TP.Ref) : Prop where
   shut : s.isShutdown = r.mem.shut
@@ -232,16 +356,17 @@ structure Inv (kinds : List PKind) (s : St) (r : Spec.TP.Ref) : Prop where
   fresh : ∀ p ∈ s.procs, p.2 = false
   tr : s.tracers = r.tracers
   sp : s.spans = r.spans
-  comp : ∀ i, CompInv (kindOf kinds i) (s.pool i) (r.dead i) (r.deliv i)
+  comp : ∀ i, CompInvR (kindOf kinds i) (s.pool i) (r.dead i) (r.raced i) (r.deliv i)
   shutnil : r.mem.shut = true → s.procs = []
+  racedshut : ∀ i, r.raced i = true → r.mem.shut = true
 
 def ka (r : Spec.TP.Ref) (op : Op) (i : Nat) : Nat := if (Spec.TP.delivers r op).1 then r.mem.mult i else 0
 def ke (r : Spec.TP.Ref) (op : Op) (i : Nat) : Nat := if (Spec.TP.delivers r op).2 then r.mem.mult i else 0
 
-/-- the F26 trigger: first Shutdown, done context, processors registered -/
+/-- the call is a provider Shutdown with a done context that takes effect (handled by `step_raced`) -/
 def trigger (m : Spec.TP.Mem) (op : Op) : Bool :=
   match op with
-  | .shutdown c => !m.shut && c.done && m.tot != 0
+  | .shutdown c _ => !m.shut && c.done
   | _ => false
 
 theorem procs_nil_of_tot {kinds s r} (h : Inv kinds s r) (h0 : r.mem.tot = 0) : s.procs = [] := by
@@ -288,25 +413,18 @@ theorem step_pool {kinds s r} (op : Op) (h : Inv kinds s r) (hf : trigger r.mem 
           simp [upd, this, iter]
         · have : ¬ i = q1 := fun e => hji e.symm
           simp [upd, hji, this, iter]
-  | shutdown c =>
+  | shutdown c ch =>
     simp only [step, ka, ke, Spec.TP.delivers, Spec.TP.flushCalls, Spec.TP.shutCalls, iter]
     by_cases hs : s.isShutdown = true
     · have hr : r.mem.shut = true := by rw [← hsh]; exact hs
       have : s.procs = [] := h.shutnil hr
-      simp [hs, this, iter, ← h.mult i, ids]
+      simp [hs, iter, ← h.mult i, this, ids]
     · have hs' : s.isShutdown = false := by simpa using hs
       have hr : r.mem.shut = false := by rw [← hsh]; exact hs'
-      simp only [hs']
-      cases hp : s.procs with
-      | nil => simp [iter, ← h.mult i, hp, ids]
-      | cons p0 rest =>
-        have htot : r.mem.tot ≠ 0 := by rw [← h.tot, hp]; simp
-        have hd : c.done = false := by
-          simp [trigger, hr, htot] at hf; exact hf
-        simp only [hd]
-        simp only [Bool.false_eq_true, ↓reduceIte, shutdownAll]
-        rw [← hp, foldl_upd_fresh _ _ _ _ h.fresh, h.mult i]
-        rfl
+      have hd : c.done = false := by simpa [trigger, hr] using hf
+      simp only [hs', hd, Bool.false_eq_true, ↓reduceIte, shutdownAll]
+      rw [foldl_upd_fresh _ _ _ _ h.fresh, h.mult i]
+      rfl
   | flush c =>
     simp only [step, ka, ke, Spec.TP.delivers, Spec.TP.flushCalls, Spec.TP.shutCalls, iter]
     cases hp : s.procs with
@@ -364,7 +482,7 @@ theorem ke_excl (r : Spec.TP.Ref) (op : Op) (i : Nat) :
     ke r op i = 0 ∨ (Spec.TP.shutCalls r op i = 0 ∧ Spec.TP.flushCalls r op i = 0) := by
   cases op <;> simp [ke, Spec.TP.delivers, Spec.TP.shutCalls, Spec.TP.flushCalls]
 
-theorem step_rest {kinds s r} (op : Op) (h : Inv kinds s r) (hf : trigger r.mem op = false) :
+theorem step_rest {kinds s r} (op : Op) (h : Inv kinds s r) :
     (step s op).1.isShutdown = (Spec.TP.memStep r.mem op).shut ∧
     (∀ i, (ids (step s op).1.procs).count i = (Spec.TP.memStep r.mem op).mult i) ∧
     (step s op).1.procs.length = (Spec.TP.memStep r.mem op).tot ∧
@@ -449,38 +567,44 @@ theorem step_rest {kinds s r} (op : Op) (h : Inv kinds s r) (hf : trigger r.mem 
           · simp [hij] at this ⊢; omega
         · rw [← htot]; simp at h4 ⊢; omega
         · intro p hp; exact hfr p (h5 p hp)
-  | shutdown c =>
-    have hmem : Spec.TP.memStep r.mem (.shutdown c) = { mult := fun _ => 0, tot := 0, shut := true } := by
+  | shutdown c ch =>
+    have hmem : Spec.TP.memStep r.mem (.shutdown c ch) = { mult := fun _ => 0, tot := 0, shut := true } := by
       simp [Spec.TP.memStep]
     by_cases hs : s.isShutdown = true
     · have hr : r.mem.shut = true := by rw [← hsh]; exact hs
       have hnil := hsn hr
-      have hstep : step s (.shutdown c) = (s, .ok) := by simp [step, hs]
+      have hstep : step s (.shutdown c ch) = (s, .ok) := by simp [step, hs]
       rw [hstep, hmem]
       exact ⟨by simp [hs], by simp [hnil, ids], by simp [hnil], hfr, by simp [Spec.TP.refStep, htr],
         by simp [Spec.TP.refStep, hsp], fun _ => hnil, by simp [Spec.TP.resOK, hr], by simp⟩
     · have hs' : s.isShutdown = false := by simpa using hs
       have hr : r.mem.shut = false := by rw [← hsh]; exact hs'
-      cases hp : s.procs with
-      | nil =>
-        have ht0 : r.mem.tot = 0 := by rw [← htot, hp]; rfl
-        have hstep : (step s (.shutdown c)).1.procs = [] ∧ (step s (.shutdown c)).1.isShutdown = true ∧
-            (step s (.shutdown c)).1.tracers = s.tracers ∧ (step s (.shutdown c)).1.spans = s.spans ∧
-            (step s (.shutdown c)).2 = .ok := by simp [step, hs', hp]
-        obtain ⟨e1, e2, e3, e4, e5⟩ := hstep
-        rw [e1, e2, e3, e4, e5, hmem]
-        exact ⟨rfl, by simp [ids], rfl, by simp, by simp [Spec.TP.refStep, htr],
-          by simp [Spec.TP.refStep, hsp], fun _ => rfl, by simp [Spec.TP.resOK, ht0], by simp⟩
-      | cons p0 rest =>
-        have htot' : r.mem.tot ≠ 0 := by rw [← htot, hp]; simp
-        have hd : c.done = false := by simp [trigger, hr, htot'] at hf; exact hf
-        have hstep : (step s (.shutdown c)).1.procs = [] ∧ (step s (.shutdown c)).1.isShutdown = true ∧
-            (step s (.shutdown c)).1.tracers = s.tracers ∧ (step s (.shutdown c)).1.spans = s.spans ∧
-            (step s (.shutdown c)).2 = .ok := by simp [step, hs', hp, hd]
-        obtain ⟨e1, e2, e3, e4, e5⟩ := hstep
-        rw [e1, e2, e3, e4, e5, hmem]
-        exact ⟨rfl, by simp [ids], rfl, by simp, by simp [Spec.TP.refStep, htr],
-          by simp [Spec.TP.refStep, hsp], fun _ => rfl, by simp [Spec.TP.resOK, hd], by simp⟩
+      have hstep : (step s (.shutdown c ch)).1.procs = [] ∧ (step s (.shutdown c ch)).1.isShutdown = true ∧
+          (step s (.shutdown c ch)).1.tracers = s.tracers ∧ (step s (.shutdown c ch)).1.spans = s.spans ∧
+          (step s (.shutdown c ch)).2 =
+            (if (c.done && s.procs.any (fun p => !p.2 && racy (s.pool p.1) && ch.e p.1)) = true
+             then c.err else .ok) := by
+        simp only [step, hs', Bool.false_eq_true, ↓reduceIte]
+        cases hd : c.done <;> simp only [Bool.true_and, Bool.false_and, Bool.false_eq_true, ↓reduceIte] <;>
+          simp
+      obtain ⟨e1, e2, e3, e4, e5⟩ := hstep
+      rw [e1, e2, e3, e4, e5, hmem]
+      refine ⟨rfl, by simp [ids], rfl, by simp, by simp [Spec.TP.refStep, htr],
+        by simp [Spec.TP.refStep, hsp], fun _ => rfl, ?_, ?_⟩
+      · simp only [Spec.TP.resOK, hr]
+        by_cases hc : (c.done && s.procs.any (fun p => !p.2 && racy (s.pool p.1) && ch.e p.1)) = true
+        · rw [if_pos hc]
+          have hc' := hc
+          simp only [Bool.and_eq_true] at hc'
+          have hne : ¬ s.procs = [] := by
+            intro e; rw [e] at hc'; simp at hc'
+          have ht : r.mem.tot ≠ 0 := by
+            rw [← htot]; intro e; exact hne (List.eq_nil_of_length_eq_zero e)
+          simp [ht, hc'.1]
+        · rw [if_neg hc]; split <;> simp
+      · split
+        · cases c <;> simp [Ctx.err]
+        · simp
   | flush c =>
     have hmem : Spec.TP.memStep r.mem (.flush c) = r.mem := by simp [Spec.TP.memStep]
     have hstep : (step s (.flush c)).1.procs = s.procs ∧ (step s (.flush c)).1.isShutdown = s.isShutdown ∧
@@ -534,66 +658,143 @@ theorem step_rest {kinds s r} (op : Op) (h : Inv kinds s r) (hf : trigger r.mem 
 
 def snapOf (s : St) : Nat → Cnt := fun i => (s.pool i).cnt
 
-theorem step_inv {kinds s r} (op : Op) (h : Inv kinds s r) (hf : trigger r.mem op = false) :
-    Inv kinds (step s op).1 (Spec.TP.refStep r op (step s op).2) ∧
-    Spec.TP.checkStep kinds r op (snapOf s) (snapOf (step s op).1) (step s op).2 = Spec.Fails.none := by
-  obtain ⟨r1, r2, r3, r4, r5, r6, r7, r8, r9⟩ := step_rest op h hf
+/-- the pool after a provider Shutdown with a done context -/
+theorem step_pool_raced {kinds s r} (c : Ctx) (ch : Choice) (h : Inv kinds s r)
+    (hf : trigger r.mem (.shutdown c ch) = true) (i : Nat) :
+    (step s (.shutdown c ch)).1.pool i = iter (procShutdownD (ch.k i) (ch.x i)) (r.mem.mult i) (s.pool i) := by
+  simp only [trigger, Bool.and_eq_true, Bool.not_eq_true'] at hf
+  have hs' : s.isShutdown = false := by rw [h.shut]; exact hf.1
+  simp only [step, hs', hf.2, Bool.false_eq_true, ↓reduceIte, shutdownAllD]
+  rw [foldl_updI (fun j => procShutdownD (ch.k j) (ch.x j)) _ _ _ h.fresh, h.mult i]
+
+theorem racedNow_false {kinds s r} (op : Op) (h : Inv kinds s r) (hf : trigger r.mem op = false) (i : Nat) :
+    Spec.TP.racedNow r op i = false := by
+  cases op <;> simp only [Spec.TP.racedNow]
+  rename_i c ch
+  simp only [trigger] at hf
+  cases hsh : r.mem.shut with
+  | false => simp_all
+  | true =>
+    have := mult_zero_of_nil h (h.shutnil hsh) i
+    simp [this]
+
+/-- `Spec.TP.checkStep` from its per-index content -/
+theorem checkStep_of (kinds : List PKind) (r : Spec.TP.Ref) (op : Op) (prev cur : Nat → Cnt) (res : Res)
+    (hres : Spec.TP.resOK r op res = true) (hcr : res ≠ .crash)
+    (h : ∀ i, StepOKR (kindOf kinds i) (prev i) (cur i) (ka r op i) (ke r op i) (Spec.TP.flushCalls r op i)
+      (Spec.TP.shutCalls r op i) (Spec.TP.drains r op i) ((Spec.TP.refStep r op res).dead i)
+      ((Spec.TP.refStep r op res).deliv i) (r.raced i) (Spec.TP.racedNow r op i)) :
+    Spec.TP.checkStep kinds r op prev cur res = Spec.Fails.none := by
+  simp only [Spec.TP.checkStep, Spec.Fails.none, Spec.Fails.mk.injEq, Bool.not_eq_false', Spec.allBelow,
+    List.all_eq_true, Bool.and_eq_true]
+  refine ⟨?_, ?_, ⟨hres, ?_⟩, ?_⟩
+  · intro i _
+    have := h i
+    revert this
+    cases kindOf kinds i <;> simp only [StepOKR, ka, ke] <;> intro this <;>
+      cases hrc : r.raced i <;> cases hrn : Spec.TP.racedNow r op i <;> simp_all <;>
+      (try (first | omega | (obtain ⟨t1, t2, _⟩ := this; rw [← t1]; exact t2)))
+  · intro i _
+    have := h i
+    revert this
+    cases kindOf kinds i <;> simp only [StepOKR, Spec.TP.stockShutOK] <;> intro this <;>
+      cases hrc : r.raced i <;> cases hrn : Spec.TP.racedNow r op i <;> simp_all <;> (try omega)
+  · intro i _
+    have := h i
+    revert this
+    cases kindOf kinds i <;> simp only [StepOKR] <;> intro this <;> simp_all
+  · cases res <;> simp_all
+
+/-- one step seen from component `i`: the component invariant is preserved and the step has the per-index content
+of `Spec.TP.checkStep` -/
+theorem step_comp {kinds s r} (op : Op) (h : Inv kinds s r) (i : Nat) :
+    CompInvR (kindOf kinds i) ((step s op).1.pool i)
+        ((Spec.TP.refStep r op (step s op).2).dead i) ((Spec.TP.refStep r op (step s op).2).raced i)
+        ((Spec.TP.refStep r op (step s op).2).deliv i) ∧
+      StepOKR (kindOf kinds i) (s.pool i).cnt ((step s op).1.pool i).cnt (ka r op i) (ke r op i)
+        (Spec.TP.flushCalls r op i) (Spec.TP.shutCalls r op i) (Spec.TP.drains r op i)
+        ((Spec.TP.refStep r op (step s op).2).dead i) ((Spec.TP.refStep r op (step s op).2).deliv i)
+        (r.raced i) (Spec.TP.racedNow r op i) := by
   have hdead : ∀ i, (Spec.TP.refStep r op (step s op).2).dead i = (r.dead i || (Spec.TP.shutCalls r op i != 0)) := by
     intro i; simp only [Spec.TP.refStep, kills_eq]
   have hdeliv : ∀ i, (Spec.TP.refStep r op (step s op).2).deliv i = r.deliv i + (if r.dead i then 0 else ke r op i) := by
     intro i; simp only [Spec.TP.refStep, ke]
     cases (Spec.TP.delivers r op).2 <;> cases r.dead i <;> simp
-  have hcomp : ∀ i, CompInv (kindOf kinds i) ((step s op).1.pool i)
-        ((Spec.TP.refStep r op (step s op).2).dead i) ((Spec.TP.refStep r op (step s op).2).deliv i) ∧
-      StepOK (kindOf kinds i) (s.pool i).cnt ((step s op).1.pool i).cnt (ka r op i) (ke r op i)
-        (Spec.TP.flushCalls r op i) (Spec.TP.shutCalls r op i)
-        (Spec.TP.shutCalls r op i != 0 || Spec.TP.flushCalls r op i != 0)
-        ((Spec.TP.refStep r op (step s op).2).dead i) ((Spec.TP.refStep r op (step s op).2).deliv i) := by
-    intro i
-    rw [step_pool op h hf i, hdead, hdeliv]
-    exact comp_step _ _ _ _ _ _ _ _ (h.comp i) (ke_excl r op i)
-  refine ⟨⟨r1, r2, r3, r4, r5, r6, fun i => (hcomp i).1, r7⟩, ?_⟩
+  have hraced : ∀ i, (Spec.TP.refStep r op (step s op).2).raced i = (r.raced i || Spec.TP.racedNow r op i) :=
+    fun _ => rfl
   have hdr : ∀ i, Spec.TP.drains r op i = (Spec.TP.shutCalls r op i != 0 || Spec.TP.flushCalls r op i != 0) := by
     intro i; simp only [Spec.TP.drains, kills_eq]
     cases op <;> simp [Spec.TP.flushCalls]
     split <;> simp_all
-  simp only [Spec.TP.checkStep, Spec.Fails.none, Spec.Fails.mk.injEq, Bool.not_eq_false', Spec.allBelow,
-    List.all_eq_true, Bool.and_eq_true]
-  refine ⟨?_, ?_, ⟨r8, ?_⟩, ?_⟩
-  · intro i _
-    have := (hcomp i).2
-    rw [hdr]
-    revert this
-    cases kindOf kinds i <;> simp only [StepOK, snapOf, ka, ke] <;> intro this <;> simp_all <;>
-      (try (obtain ⟨t1, t2, _⟩ := this; rw [← t1]; exact t2))
-  · intro i _
-    have := (hcomp i).2
-    revert this
-    cases kindOf kinds i <;> simp only [StepOK, snapOf] <;> intro this <;> simp_all
-  · intro i _
-    have := (hcomp i).2
-    revert this
-    cases kindOf kinds i <;> simp only [StepOK, snapOf] <;> intro this <;> simp_all
-  · cases hres : (step s op).2 <;> simp_all
+  rw [hdead, hdeliv, hraced, hdr]
+  cases ht : trigger r.mem op with
+  | true =>
+    -- the provider's Shutdown with a done context
+    cases op with
+    | shutdown c ch =>
+      have ht' := ht
+      simp only [trigger, Bool.and_eq_true, Bool.not_eq_true'] at ht'
+      have hnr : r.raced i = false := by
+        cases hr : r.raced i with
+        | false => rfl
+        | true => have := h.racedshut i hr; rw [ht'.1] at this; cases this
+      have hci := compInvR_elim _ _ _ _ _ (h.comp i) (Or.inr hnr)
+      rw [step_pool_raced c ch h ht i]
+      have := comp_raced _ _ _ _ (ch.k i) (ch.x i) (r.mem.mult i) hci
+      simp only [ka, ke, Spec.TP.delivers, Spec.TP.flushCalls, Spec.TP.shutCalls, Spec.TP.racedNow, hnr, ht'.2,
+        Bool.false_or, Bool.true_and, Bool.false_eq_true, ↓reduceIte, Nat.add_zero, Bool.or_false,
+        bne_self_eq_false] at this ⊢
+      cases hd : r.dead i <;> simp only [hd] at this ⊢ <;> exact this
+    | _ => simp [trigger] at ht
+  | false =>
+    have hrn := racedNow_false op h ht i
+    rw [hrn, Bool.or_false, step_pool op h ht i]
+    by_cases hst : isStock (kindOf kinds i) = true ∧ r.raced i = true
+    · obtain ⟨hs1, hs2⟩ := hst
+      have hc := h.comp i
+      rw [hs2, compInvR_raced _ _ _ _ hs1] at hc
+      obtain ⟨hd, hrc⟩ := hc
+      rw [raced_fix _ _ _ _ _ _ _ hrc, hs2, hd]
+      simp only [Bool.true_or, ↓reduceIte, Nat.add_zero]
+      exact ⟨(compInvR_raced _ _ _ _ hs1).mpr ⟨rfl, hrc⟩, raced_stepOK _ _ _ _ _ _ _ _ _ _ hrc⟩
+    · have hn : isStock (kindOf kinds i) = false ∨ r.raced i = false := by
+        cases h1 : isStock (kindOf kinds i) <;> cases h2 : r.raced i <;> simp_all
+      have hci := compInvR_elim _ _ _ _ _ (h.comp i) hn
+      obtain ⟨c1, c2⟩ := comp_step _ _ _ _ _ _ _ _ hci (ke_excl r op i)
+      refine ⟨compInvR_intro _ _ _ _ _ c1 hn, ?_⟩
+      have c3 := stepOK_to_R _ _ _ _ _ _ _ _ _ _ c2
+      rcases hn with hn | hn
+      · exact stepOKR_irrel _ _ _ _ _ _ _ _ _ _ _ _ hn c3
+      · rw [hn]; exact c3
 
-theorem f26From_cons (m : Spec.TP.Mem) (op : Op) (rest : List Op) :
-    Spec.TP.f26From m (op :: rest) = (trigger m op || Spec.TP.f26From (Spec.TP.memStep m op) rest) := by
-  cases op <;> rfl
+theorem step_inv {kinds s r} (op : Op) (h : Inv kinds s r) :
+    Inv kinds (step s op).1 (Spec.TP.refStep r op (step s op).2) ∧
+    Spec.TP.checkStep kinds r op (snapOf s) (snapOf (step s op).1) (step s op).2 = Spec.Fails.none := by
+  obtain ⟨r1, r2, r3, r4, r5, r6, r7, r8, r9⟩ := step_rest op h
+  have hraced : ∀ i, (Spec.TP.refStep r op (step s op).2).raced i = (r.raced i || Spec.TP.racedNow r op i) :=
+    fun _ => rfl
+  have hcomp := fun i => step_comp op h i
+  refine ⟨⟨r1, r2, r3, r4, r5, r6, fun i => (hcomp i).1, r7, ?_⟩, checkStep_of _ _ _ _ _ _ r8 r9 fun i => (hcomp i).2⟩
+  · intro i hr
+    rw [hraced] at hr
+    simp only [Bool.or_eq_true] at hr
+    rcases hr with hr | hr
+    · have := h.racedshut i hr
+      show (Spec.TP.memStep r.mem op).shut = true
+      cases op <;> simp_all [Spec.TP.memStep]
+      all_goals (split <;> simp_all)
+    · cases op <;> simp_all [Spec.TP.racedNow, Spec.TP.refStep, Spec.TP.memStep]
 
 theorem Fails.none_or_none : Spec.Fails.none.or Spec.Fails.none = Spec.Fails.none := by decide
 
 theorem checkFrom_none {kinds} (ops : List Op) : ∀ (s : St) (r : Spec.TP.Ref), Inv kinds s r →
-    Spec.TP.f26From r.mem ops = false →
     Spec.TP.checkFrom kinds r (snapOf s) ops (runFrom s ops) = Spec.Fails.none := by
   induction ops with
-  | nil => intro s r _ _; rfl
+  | nil => intro s r _; rfl
   | cons op rest ih =>
-    intro s r h hf
-    rw [f26From_cons] at hf
-    simp only [Bool.or_eq_false_iff] at hf
-    obtain ⟨h1, h2⟩ := step_inv op h hf.1
-    simp only [runFrom, Spec.TP.checkFrom]
-    have := ih (step s op).1 _ h1 (by simpa [Spec.TP.refStep] using hf.2)
+    intro s r h
+    obtain ⟨h1, h2⟩ := step_inv op h
+    have := ih (step s op).1 _ h1
     show (Spec.TP.checkStep kinds r op (snapOf s) (snapOf (step s op).1) (step s op).2).or
       (Spec.TP.checkFrom kinds (Spec.TP.refStep r op (step s op).2) (snapOf (step s op).1) rest
         (runFrom (step s op).1 rest)) = Spec.Fails.none
@@ -605,9 +806,9 @@ theorem runFrom_length (s : St) (ops : List Op) : (runFrom s ops).length = ops.l
   | cons op rest ih => simp [runFrom, ih]
 
 theorem inv_init (kinds : List PKind) : Inv kinds (init kinds) {} := by
-  refine ⟨rfl, fun i => by simp [init, ids], rfl, by simp [init], rfl, rfl, ?_, by simp⟩
+  refine ⟨rfl, fun i => by simp [init, ids], rfl, by simp [init], rfl, rfl, ?_, by simp, by simp⟩
   intro i
-  simp only [CompInv, init]
+  simp only [CompInvR, CompInv, init]
   cases kindOf kinds i <;> simp
 
 end Otel.C15.Lemmas
